@@ -239,6 +239,25 @@ def run_case(case):
                 V("value_depends_on_evaluation_history_not_only_on_x", x=q, got=got, want=want,
                   buffer=mk.__name__)
                 break
+    # the same instance, after everything above, against a fresh instance on a lattice of "nice" points (integers and
+    # half-integers of the domain, the documented maximisers): a value must not depend on what was evaluated before
+    if d <= 2:
+        fresh, _, _, _ = make(case, rng)
+        axes = []
+        for lo, hi in dom:
+            pts1 = sorted({float(v) / 2 for v in range(int(math.ceil(2 * lo)), int(math.floor(2 * hi)) + 1)} | {lo, hi})
+            axes.append(pts1)
+        lattice = [list(q) for q in __import__("itertools").product(*axes)] + [list(m) for m in maximisers]
+        for q in lattice:
+            got, want = float(obj.f(list(q))), float(fresh.f(list(q)))
+            obs["lattice_points_compared_with_a_fresh_instance"] += 1
+            if got != want and not (math.isnan(got) and math.isnan(want)):
+                V("value_depends_on_evaluation_history_not_only_on_x", x=q, got=got, fresh_instance=want)
+                break
+        for q in reversed(lattice):  # and in the opposite order on the fresh instance
+            if float(fresh.f(list(q))) != float(obj.f(list(q))):
+                V("value_depends_on_evaluation_history_not_only_on_x", x=q, order="reversed")
+                break
     st1 = obj.__dict__
     if set(st1) != set(state0) or any(repr(st1[k]) != repr(state0[k]) for k in state0):
         V("object_attributes_changed_by_evaluation", before=state0, after=dict(st1))
